@@ -4,9 +4,10 @@
 (* fields), and an extension mode; gdoc is the complete document hosting that object at  *)
 (* the kind's primary site (DocModel!Host), with a target for every reference used.     *)
 (*   grow : from the bare object, add fields: singles in every variant of the field's   *)
-(*          category (typical, zero, null, big number, $ref, $ref with siblings ...),    *)
+(*          category (typical, zero, null, big number, $ref, $ref with siblings, external *)
+(*          $ref to a whole file / to a fragment of an external document ...),            *)
 (*          then pairs/triples of typical values, up to MaxGrow fields;                  *)
-(*   full : every optional field populated (inline / as $ref), then remove up to         *)
+(*   full : every optional field populated (inline / as $ref / as external $ref), remove up to *)
 (*          MaxShrink fields (all-but-one ...);                                          *)
 (*   rand : per kind RandPerKind pseudo-random subsets of 3..8 fields with mixed variants  *)
 (*          (a deterministic function of Seed, so TLC enumerates them like any other).   *)
@@ -121,7 +122,7 @@ RandCase(ki, r) ==
        ext |-> Nth(exts, H(h0, 2) % Cardinality(exts)), rm |-> 0]
 Init ==
    /\ \/ \E kind \in Kinds : \E ext \in ExtModes(kind) : gcase = Case("grow", kind, {}, ext)
-      \/ \E kind \in Kinds, var \in {"v", "ref", "alt"} : \E ext \in FullExt(kind) :
+      \/ \E kind \in Kinds, var \in {"v", "ref", "alt", "xref"} : \E ext \in FullExt(kind) :
             /\ FullFields(kind) # {}
             /\ var = "alt" => Excl(kind) # {}
             /\ gcase = Case("full", kind, FullFv(kind, var), ext)
@@ -150,5 +151,5 @@ Spec == Init /\ [][Next]_vars
 Descr(cc) == IF cc.mode = "special" THEN cc
              ELSE [mode |-> cc.mode, kind |-> cc.kind, ext |-> cc.ext,
                    fv |-> {[f |-> p[1], var |-> p[2]] : p \in cc.fv}]
-Emit == CSVWrite("%1$s", <<ToJson([d |-> Descr(gcase), ver |-> VerOf(gcase), doc |-> gdoc])>>, "cases.ndjson")
+Emit == CSVWrite("%1$s", <<ToJson([d |-> Descr(gcase), ver |-> VerOf(gcase), doc |-> gdoc, ext |-> ExtOf(VerOf(gcase), gdoc)])>>, "cases.ndjson")
 =============================================================================
